@@ -111,12 +111,11 @@ func secRotationConstruct(c *vlib.Ctx, n int) {
 // secRotationOpenFailure: the same scenarios, but most cycles that have to open a new file (and
 // a few that do not) first run with an obstacle that makes the open fail (faults.go); lines are
 // logged while it is there; then it is removed, the cycle runs once or twice and the fault-free
-// oracle applies again: lines are in the file of the current virtual date. One scenario in five
-// has the date change right after the constructor returned.
+// oracle applies again: lines are in the file of the current virtual date.
 func secRotationOpenFailure(c *vlib.Ctx, n int) {
 	c.Cases("rotation-open-failure", n, func(i int, r *vlib.Rand) {
 		probeFaults(c)
-		fineScenario(c, "rotation-open-failure", i, r, i%5 == 4, true)
+		fineScenario(c, "rotation-open-failure", i, r, false, true)
 	})
 }
 
@@ -360,6 +359,9 @@ func fineScenario(c *vlib.Ctx, section string, i int, r *vlib.Rand, construct, f
 				if len(names) > 1 {
 					key = "FileLogger:line-lost/rotation-window"
 				}
+				if hadFault {
+					key = keyOpenFailure
+				}
 				dd := detail()
 				dd["call"], dd["allowed_files"] = cl.brief(), names
 				c.Fail(key, fmt.Sprintf("%s line is in none of %v", epName[cl.EP], names), dd)
@@ -494,11 +496,12 @@ func fineScenario(c *vlib.Ctx, section string, i int, r *vlib.Rand, construct, f
 				c.Count("open_failure_steps_that_had_to_open_a_file", 1)
 				c.SetAdd("open_failure_families_on_a_date_change", faultFamily(flt.class))
 			}
-			if absent > 0 {
+			if needsOpen && absent > 0 {
 				c.Count("open_failure_steps_file_absent_while_failing", 1)
 				c.SetAdd("open_failure_classes_observed_to_block_the_open", flt.class)
 			} else if needsOpen {
 				c.Count("open_failure_steps_file_opened_despite_obstacle", 1)
+				c.SetAdd("open_failure_classes_observed_not_to_block_the_open", flt.class)
 			}
 		}
 		stepLog = append(stepLog, st)
@@ -603,7 +606,7 @@ func fineScenario(c *vlib.Ctx, section string, i int, r *vlib.Rand, construct, f
 
 	if construct {
 		plan = append(plan, fmt.Sprint("newborn-jump:", jumpTo-mid, ":", procs1))
-		doStep("first-cycle-after-date-change-right-after-creation", -1, r.Chance(1, 3), faulty && r.Chance(2, 3))
+		doStep("first-cycle-after-date-change-right-after-creation", -1, r.Chance(1, 3), false)
 	} else {
 		batch(r.Range(1, 5))
 	}
